@@ -1,11 +1,11 @@
 CONSTANTS
   MaxN = 2
-  MaxH = 2
+  MaxH = 1
   MaxE = 1
   MaxP = 1
   MaxM = 1
   AllowArm = FALSE
-  Patched = FALSE
+  Patched = TRUE
 SPECIFICATION Spec
 VIEW FullView
 INVARIANT TypeOK
